@@ -16,6 +16,7 @@ from .core import PyExc, Sym, Unsupported, mk, real_term
 from .libmodels import _np_elem, to_ndarr
 from .objects import NDArr
 
+RING_CCW = z3.Function("ring_ccw", z3.RealSort(), z3.BoolSort())  # sign of the (canonical) signed-area polynomial, uninterpreted
 _INPOLY = {}
 _POLYHITS = {}
 IN_DISC = None
@@ -122,8 +123,7 @@ def orient(interp, args, kwargs):
     if z3.is_true(c) or z3.is_false(c):
         is_ccw = z3.is_true(c)
     else:
-        key = hashlib.sha1(area2.sexpr().encode()).hexdigest()[:12]
-        is_ccw = interp.ctx.branch(z3.Bool("ring_ccw!" + key))
+        is_ccw = interp.ctx.branch(RING_CCW(area2))
     interp.ctx.used_models.add("shapely orient(): reverses the ring iff its signed area disagrees with `sign`; denotation unchanged")
     want_ccw = float(sign) >= 0.0
     if is_ccw != want_ccw:
@@ -208,6 +208,60 @@ def intersects(interp, a, b):
     return mk(f(*a.params(), *b.params()), bool)
 
 
+class STRtreeModel:
+    """shapely.strtree.STRtree over model geometries.
+    Assumptions (trusted base): query(g) without predicate returns a superset of the geometries intersecting g (the
+    model returns all indices; callers filter with intersects()); query(points, predicate='dwithin', distance<=1e-9)
+    returns exactly the (point, geometry) pairs for which the geometry contains/touches the point."""
+
+    def __init__(self, geoms):
+        self.geometries = list(geoms)
+
+
+def make_strtree(interp, args, kwargs):
+    geoms = list(interp.iterate(args[0])) if args else []
+    for g in geoms:
+        if not isinstance(g, Geom):
+            raise Unsupported("STRtree over %r" % type(g))
+    interp.ctx.used_models.add("shapely STRtree: query() exact w.r.t. the (uninterpreted) geometric predicates; candidate pre-filter by bounding boxes not modelled")
+    return STRtreeModel(geoms)
+
+
+def strtree_attr(interp, tree, name):
+    from .interp import ModelFn
+
+    if name == "geometries":
+        return tree.geometries
+
+    def query(it, args, kwargs):
+        g = args[0]
+        pred = kwargs.get("predicate", args[1] if len(args) > 1 else None)
+        if isinstance(g, Geom):
+            if pred is None:
+                return list(range(len(tree.geometries)))
+            if pred == "intersects":
+                return [j for j, t in enumerate(tree.geometries) if interp.truth(intersects(interp, t, g))]
+            raise Unsupported("STRtree.query predicate %r" % pred)
+        pts = list(interp.iterate(g))
+        if pred not in ("dwithin", "intersects"):
+            raise Unsupported("STRtree.query(list) predicate %r" % pred)
+        if pred == "dwithin":
+            d = kwargs.get("distance")
+            if not isinstance(d, float) or d > 1e-9:
+                raise Unsupported("dwithin with distance %r" % (d,))
+        ii, jj = [], []
+        for i, p_ in enumerate(pts):
+            for j, t in enumerate(tree.geometries):
+                if interp.truth(intersects(interp, t, p_)):
+                    ii.append(i)
+                    jj.append(j)
+        return (ii, jj)
+
+    if name == "query":
+        return ModelFn(query, "STRtree.query")
+    raise Unsupported("STRtree.%s" % name)
+
+
 def coords_to_array(interp, c):
     pts = c.pts
     return NDArr([[x, y] for x, y in pts], (len(pts), 2), "f")
@@ -218,3 +272,6 @@ def install(models):
     models[shapely.geometry.Point] = make_point
     models[shapely.geometry.polygon.orient] = orient
     models[shapely.affinity.rotate] = rotate
+    from shapely.strtree import STRtree as _STRtree
+
+    models[_STRtree] = make_strtree
